@@ -28,8 +28,9 @@ type crashPoint struct {
 type twin struct {
 	commits    int
 	crash      []crashPoint
-	digAfter   []string // image digest after each step
-	looseAfter []string // cross-run digest after each step
+	initWrites map[int]bool // commits that were window writes of a lazy filter initialisation
+	digAfter   []string     // image digest after each step
+	looseAfter []string     // cross-run digest after each step
 	digBase    string
 	finalImg   *memory.Database
 	trace      *trace
@@ -72,14 +73,39 @@ func (r *runner) report(sc *Scenario, ps problems, prefix string, extra map[stri
 // reportCause reports the problems of one situation. When a root cause was identified the
 // problems are its consequences and go into ONE violation named after the cause; otherwise every
 // problem is a violation of its own.
+//
+// Only symptoms that the cause EXPLAINS are folded into its signature (a known-finding signature
+// must match nothing but the defect it documents): every cause concerns the running event filter
+// / the event index, so a problem about anything else (a block record, a lookup, the state, the
+// height, the image) is always reported under its own signature; and the cached initialisation
+// error only explains calls that return that very error.
 func (r *runner) reportCause(sc *Scenario, cause, causeWhat string, ps problems, prefix string, extra map[string]any) {
 	if cause == "" {
 		r.report(sc, ps, prefix, extra)
 		return
 	}
+	explains := func(p Problem) bool {
+		if cause == sigInitCached {
+			return strings.Contains(p.Detail, "couldn't initialize the running event filter")
+		}
+		if cause == "event-query-uses-stale-cached-window-after-reorg" {
+			return strings.HasSuffix(p.Sig, "event-query-misses-events")
+		}
+		for _, frag := range []string{"running-filter", "event-query", "next-block-cannot-be-stored", "retry-fails", "later-call-fails", "final-image-differs"} {
+			if strings.Contains(p.Sig, frag) {
+				return true
+			}
+		}
+		return false
+	}
+	var rest problems
 	cons := make([]string, 0, len(ps))
 	seen := map[string]bool{}
 	for _, p := range ps {
+		if !explains(p) {
+			rest = append(rest, p)
+			continue
+		}
 		if !seen[p.Sig] {
 			seen[p.Sig] = true
 			cons = append(cons, p.Sig+": "+p.Detail)
@@ -95,7 +121,12 @@ func (r *runner) reportCause(sc *Scenario, cause, causeWhat string, ps problems,
 		what += " Consequences observed: " + strings.Join(cons, " | ")
 	}
 	r.violate(sc, cause, what, ex)
+	r.report(sc, rest, prefix, extra)
 }
+
+// sigInitCached: a lazy filter initialisation failed on a write and the error is kept by the
+// instance (L17; paths not covered by the Reset of 3373c0b: WriteRunningEventFilter, event queries).
+const sigInitCached = "filter-init-error-cached-after-failed-init-write"
 
 func (sc *Scenario) newStore() (db.KeyValueStore, func()) {
 	if sc.NewStore != nil {
@@ -195,7 +226,10 @@ func (r *runner) runTwin(sc *Scenario) (*twin, bool) {
 		if s.Op == "rejected" && err == nil {
 			r.res.Hit("rejected:" + errClass(n.rejectErr))
 		}
-		tw.trace.step(s, err, n, store)
+		// after a kill / restart the filter is left untouched, so that the next call runs with a
+		// lazy filter on the real code (initialisation inside the call, as in a fresh process)
+		lazyObs := s.Op == "kill" || s.Op == "restart"
+		tw.trace.stepQL(s, err, n, store, false, lazyObs)
 		if err != nil {
 			r.violate(sc, "fault-free-"+s.Op+"-fails", fmt.Sprintf("step %d %s failed without any injected fault: %v", i, s, err),
 				map[string]any{"step": i, "fault": "none"})
@@ -206,12 +240,25 @@ func (r *runner) runTwin(sc *Scenario) (*twin, bool) {
 		r.res.Hit(fmt.Sprintf("commits-per-%s:%d", s.Op, min(nc, 9)))
 		tw.digAfter = append(tw.digAfter, digest(store))
 		tw.looseAfter = append(tw.looseAfter, looseDigest(store))
-		ps, cause, what := r.liveChecks(n, store, &s.After, nil, s.Op != "prune")
+		var ps problems
+		cause, what := "", ""
+		if lazyObs {
+			ps = checkNode(n.bc, &s.After, nil, nil) // no event query: it would initialise the filter
+		} else {
+			ps, cause, what = r.liveChecks(n, store, &s.After, nil, s.Op != "prune")
+		}
 		r.reportCause(sc, cause, what, ps, "live-", map[string]any{"step": i, "fault": "none"})
 		r.res.Case(fmt.Sprintf("%s/%d/live/%d", sc.Name, sc.Seed, i), true)
 	}
 	tw.commits = fdb.Commits()
 	tw.finalImg = image(store)
+	tw.initWrites = map[int]bool{}
+	for _, cp := range tw.crash {
+		if fdb.isInitWrite(cp.K) {
+			tw.initWrites[cp.K] = true
+			r.res.Hit("init-write-inside:" + sc.Steps[cp.Step].Op)
+		}
+	}
 	if r.drivers != nil {
 		kk, last := 0, -1
 		for _, cp := range tw.crash {
@@ -226,8 +273,11 @@ func (r *runner) runTwin(sc *Scenario) (*twin, bool) {
 				if st.Op == "prune" {
 					r.res.Hit("prune-batches-not-compared-with-model")
 				}
+			} else if tw.initWrites[cp.K] {
+				tw.trace.crash(cp.Step, "ci", cp.Img)
+				continue // not one of the call's own commits
 			} else {
-				tw.trace.crash(cp.Step, kk, cp.Img)
+				tw.trace.crash(cp.Step, fmt.Sprintf("c%d", kk), cp.Img)
 			}
 			kk++
 		}
@@ -249,6 +299,22 @@ func (r *runner) checkCrashPoints(sc *Scenario, tw *twin) {
 		d := digest(cp.Img)
 		w, ghost := after, (*lib.Bundle)(nil)
 		r.res.Hit("crash-point:" + s.Op)
+		if tw.initWrites[cp.K] {
+			// the process died after the lazy initialisation persisted a window, before the call's
+			// own commit: everything but the window bucket must be the before-image
+			r.res.Hit("crash-point-after-init-write")
+			if df := diffImages(cp.Img, tw.imgBefore(cp.Step, sc)); strings.Count(df, "=") != strings.Count(df, "AggregatedBloomFilters:") {
+				r.violate(sc, "init-write-changes-more-than-windows", fmt.Sprintf("the image after commit %d (the window write of a lazy filter "+
+					"initialisation inside step %d %s) differs from the image before the call in: %s", cp.K, cp.Step, s, df), extra)
+			}
+			gh := (*lib.Bundle)(nil)
+			if s.Op == "store" || s.Op == "finalise" {
+				gh = s.B
+			}
+			r.checkRestartedImage(sc, cp.Img, before, gh, "crash-", extra)
+			r.res.Case(fmt.Sprintf("%s/%d/crash/%d", sc.Name, sc.Seed, cp.K), true)
+			continue
+		}
 		switch {
 		case d == tw.digAfter[cp.Step]:
 			if s.Op == "revert" {
@@ -366,9 +432,13 @@ func (sc *Scenario) restartCause(img db.KeyValueStore, w *World) (string, string
 // checkRestartedImage opens a fresh node on a copy of the image (an ungraceful restart) and
 // checks it against world w, including that the next block can be stored.
 func (r *runner) checkRestartedImage(sc *Scenario, img *memory.Database, w *World, ghost *lib.Bundle, prefix string, extra map[string]any) {
+	// first thing a restarted process does in sync: store the next block — on an instance whose
+	// running filter has not been touched yet (lazy initialisation inside Store's closure)
+	var ps problems
+	storeProbe(sc.open(img.Copy()), w, &ps, "first-call-after-restart-")
 	work := img.Copy()
 	bc := sc.open(work)
-	ps := checkNode(bc, w, ghost, sc.Queries)
+	ps = append(ps, checkNode(bc, w, ghost, sc.Queries)...)
 	if sc.Pruning {
 		checkRetention(work, bc, w, &ps)
 	}
@@ -430,20 +500,22 @@ func (r *runner) runFault(sc *Scenario, tw *twin, k int) {
 		}
 		extra := map[string]any{"step": failedStep, "fault": "fail-commit", "k": k}
 		if initFault {
-			r.res.Hit("failed-commit-inside-filter-init")
-			if len(all) > 0 {
-				r.reportCause(sc, "running-filter-init-error-is-sticky-after-failed-write",
-					fmt.Sprintf("commit %d was the window write of a lazy running-filter initialisation (fill across a window boundary) inside step %d %s; "+
-						"the initialisation error is kept for the life of the instance (sync.Once): every later Store / RevertHead / event query returns it although the disk is intact.",
-						k, failedStep, &sc.Steps[failedStep]), all, "", extra)
+			r.res.Hit("failed-commit-inside-filter-init:" + failedOp)
+			cause, causeWhat = "", ""
+			for _, p := range all {
+				if strings.Contains(p.Detail, "couldn't initialize the running event filter") {
+					cause = sigInitCached
+					causeWhat = fmt.Sprintf("commit %d was the window write of a lazy running-filter initialisation (a fill that reaches the end of a window) "+
+						"inside step %d %s; ensureInit keeps the error for the life of the instance (sync.Once): later calls return it although the "+
+						"database is intact and healthy (only a failing Store / RevertHead / Finalise drops it again).", k, failedStep, &sc.Steps[failedStep])
+					break
+				}
 			}
-			return
 		}
 		r.reportCause(sc, cause, causeWhat, all, "", extra)
 		tr.compare(r, sc, extra)
 	}
 	defer finish()
-	r.res.Case(fmt.Sprintf("%s/%d/fail/%d", sc.Name, sc.Seed, k), true)
 	for i := range sc.Steps {
 		s := &sc.Steps[i]
 		digBefore := ""
@@ -480,6 +552,7 @@ func (r *runner) runFault(sc *Scenario, tw *twin, k int) {
 			return
 		}
 		// the injected failure surfaced here
+		r.res.Case(fmt.Sprintf("%s/%d/fail/%d", sc.Name, sc.Seed, k), true)
 		failedStep, failedOp = i, s.Op
 		initFault = strings.Contains(err.Error(), "couldn't initialize the running event filter")
 		r.res.Hit("failed-commit:" + s.Op)
@@ -503,6 +576,7 @@ func (r *runner) runFault(sc *Scenario, tw *twin, k int) {
 			if disk, err := restartFilter(store, sc.Pruning); err == nil {
 				mo, do := sc.U.observeFilter(mem, w.Floor), sc.U.observeFilter(disk, w.Floor)
 				if mo != do {
+					ps.add("running-filter-differs-from-restart", "in memory window %d / next %d, a restart gives window %d / next %d", mo.From, mo.Next, do.From, do.Next)
 					cause = "running-filter-diverges-after-failed-" + s.Op + "-commit"
 					causeWhat = fmt.Sprintf("step %d %s returned the injected commit error; the disk is unchanged (height %d) but the in-memory running event filter "+
 						"has window %d / next %d where a restart on the same disk gives window %d / next %d (same entries: %v): "+
@@ -531,6 +605,7 @@ func (r *runner) runFault(sc *Scenario, tw *twin, k int) {
 		note(qs, "after-failed-"+s.Op+"-commit-retried-")
 	}
 	if failedStep < 0 {
+		r.res.Hit("fault-position-not-reached")
 		return
 	}
 	last := &sc.Steps[len(sc.Steps)-1].After
